@@ -945,8 +945,18 @@ def find_form_conjunction(A, body, I0, fr0, w):
     the write must be unreachable when the search is forced to find a blocker"""
     from interp import Interp, Config
     from protocol import forced_analysis
-    qs = [v for k, v in I0.rec.facts.items() if k[0] == "quantifier" and v.get("iter") is not None and v["iter"][1][0] == "nbr"
-          and v["iter"][1][3] == "Outgoing" and v["fid"] == fr0.fid]
+    def nbr_dir(tm):
+        """direction of the neighbour enumeration at the bottom of an adaptor chain (map / filter / copied ...), or None"""
+        while isinstance(tm, tuple) and tm:
+            if tm[0] == "nbr":
+                return tm[3]
+            if tm[0] in ("map", "filter", "filter_map", "enum", "fresh") and len(tm) > 1:
+                tm = tm[1]
+                continue
+            return None
+        return None
+    qs = [v for k, v in I0.rec.facts.items() if k[0] == "quantifier" and v.get("iter") is not None and nbr_dir(v["iter"][1]) == "Outgoing"
+          and v["fid"] == fr0.fid]
     if len(qs) != 1:
         return None
     q = qs[0]
@@ -1652,39 +1662,37 @@ def write_is_gated(A, t, w, good_gates):
 # R2.5: the decision to skip a delayed Ephemeral looks at every direct downstream
 
 def downstream_pass_summary(A, body):
-    """for a helper f(.., key) -> bool | Result<bool> with a single loop over the Outgoing neighbours of its key:
-    the neighbour states for which one iteration neither returns false/Err nor leaves the loop"""
+    """for a helper f(.., key) -> bool | Result<bool> that inspects the Outgoing neighbours of its key (loop, all/any/find, mapped
+    helper ...): the neighbour states d for which the helper can answer true when the job has at least one neighbour and all its
+    neighbours are in state d (uniform, non-empty neighbourhood: the trace partition that has no 'zero iterations' blind spot)"""
     from interp import Interp, Config
-    from domain import av_set
-    I = Interp(A.facts, A.uni, A.layout, Config(label="DPS"))
-    fr, out, col = I.analyze(body)
-    ins = col["ins"]
-    nb = [v for k, v in I.rec.facts.items() if k[0] == "neighbors" and v["fid"] == fr.fid and v["dir"] == "Outgoing" and is_role(v["key"], "param")]
-    if len(nb) != 1:
+    I0 = Interp(A.facts, A.uni, A.layout, Config(label="DPS0"))
+    fr0, out0, col0 = I0.analyze(body)
+    nb = [v for k, v in I0.rec.facts.items() if k[0] == "neighbors" and v["dir"] == "Outgoing" and is_role(v["key"], "param")]
+    if not nb:
         return None
-    heads = [h for h in set(h for (_, h) in body.back_edges())
-             if body.term(h)["k"] == "call" and (M.callee_name(body.term(h)) or "").endswith("::next")]
-    if len(heads) != 1:
-        return None
-    h = heads[0]
-    loop = body.natural_loop(h)
-    sw = body.term(h)["t"]
-    somes = [s_ for s_ in body.succs(sw) if s_ in loop]
-    sym = ("b", fr.fid, h, "nbr")
     passing = set()
     for d in A.JS:
-        for s0 in somes:
-            if s0 not in ins:
-                continue
-            st = ins[s0].copy()
-            cell = st.heap.get(("job", sym))
-            if cell is None or cell[0] != "adt":
-                return None
-            st.heap[("job", sym)] = av_set(cell, (("f", A.L.state_field),), fin(A.L.jobstate, [d]), A.uni)
-            col2 = {}
-            I.run(fr, st, start=s0, stops={h}, collect=col2)
-            if h in col2["stops"]:
+        cfg = Config(label="DPS", cell_init={"nbr:Outgoing:param": fin(A.L.jobstate, [d])})
+        cfg.nonempty_nbrs = True
+        I = Interp(A.facts, A.uni, A.layout, cfg)
+        fr, out, col = I.analyze(body)
+        if out is None:
+            continue
+        rv = out.locals.get((fr.fid, 0))
+        if rv is None:
+            return None
+        if rv[0] == "fin" and rv[1] == BOOL:
+            if (1,) in rv[2]:
                 passing.add(d)
+        elif rv[0] == "adt" and rv[1] == "std::result::Result":
+            vs = adt_variants(rv)
+            if 0 in vs:
+                p = vs[0][0]
+                if p[0] != "fin" or (1,) in p[2]:
+                    passing.add(d)
+        else:
+            passing.add(d)
     return frozenset(passing)
 
 
@@ -1798,93 +1806,162 @@ def requirement_field(A):
     return list(projs)[0]
 
 
+def _must_follow(A, I2, fr2, body, w_bb, em_blocks):
+    """on the CFG edges the run took: from block w_bb every way to the function's return passes one of em_blocks (error exits exempt)"""
+    errs = error_exit_blocks(A, body) | residual_blocks(body)
+    es = I2.edges.get(fr2.fid, set())
+    succ = {}
+    for (a_, b2) in es:
+        succ.setdefault(a_, []).append(b2)
+    if w_bb in em_blocks:
+        return True
+    seen_, stk = set(), [w_bb]
+    while stk:
+        x = stk.pop()
+        if x in seen_ or (x in em_blocks and x != w_bb) or x in errs:
+            continue
+        seen_.add(x)
+        stk.extend(succ.get(x, ()))
+    return "return" not in seen_
+
+
+def _lift(I2, fr2, x):
+    idx = dict(((nm[0], tuple(nm[1])), f) for f, nm in I2.frame_names.items())
+    ch = list(x.get("stack") or ()) + [(x["fn"], x["bb"])]
+    for i_, (fn_, bb_) in enumerate(ch):
+        if idx.get((fn_, tuple(ch[:i_]))) == fr2.fid:
+            return bb_
+    return None
+
+
 def rule_flag_change_wakes_upstreams(A, R, rule):
     """The requirement summary of a parked Ephemeral reads the 'needed' flags of its outgoing dependencies.  Whenever the consider logic
     of a job writes those flags on the job's own incoming dependencies, it must reconsider the direct upstreams on every path:
-    nothing else tells a parked upstream that the answer it is waiting for has changed."""
+    nothing else tells a parked upstream that the answer it is waiting for has changed.  The consider logic is analysed once per
+    validation verdict (trace partition), so that what follows the write is judged under the verdict that led to it."""
+    from rules_compare import validation_ty, consider_entry_fns, skip_kind
+    from protocol import forced_analysis
+    from domain import adt
     C = A.classes()
     K = kinds(A)
-    H = A.handler_runs()
     rf = requirement_field(A)
+    vt = validation_ty(A)
+    uvs = [b for b in A.evaluator_methods() if b.locals[0]["s"].startswith("std::result::Result<%s" % vt)]
+    entries = [A.facts.body(n_) for n_ in sorted(consider_entry_fns(A, skip_kind(A)))]
     n = 0
+    seen = set()
     for s in sorted(A.reach()):
         if s in C["Finished"] or s in C["Running"] or s in C["Ready"]:
             continue
-        run = H[(K["consider"], s)]
-        ws = []
-        for w in run.by_kind("write_edge"):
-            if w["proj"] != rf:
-                continue
-            roles = run.syms.get(w["b"], (frozenset(), None))[0]
-            if is_role((w["b"], roles), "sigtarget"):
-                ws.append(w)
-        if not ws:
-            continue
-        ems = [v for v in run.by_kind("push_signal") if v["container"] != "queue" and K["consider"] in v["kinds"]
-               and any(isinstance(r_, tuple) and r_[0] == "nbr" and r_[2] == "Incoming" for r_ in _flat_roles(v["key"][1]))]
-        seen = set()
-        for w in ws:
-            site = (w["fn"], w["bb"], tuple(w.get("stack") or ()))
-            if site in seen:
-                continue
-            seen.add(site)
-            ok, why = bool(ems), "no consider signal is sent to the upstreams"
-            vres = _write_in_validation(A, w, s)
-            if vres is not None:
-                # the write happens inside the validation function: what the handler does next depends on the verdict, and the
-                # verdict is correlated with the write (decided by running the function on from the write)
-                ok, why = vres
-                n += 1
-                R.ob(rule, "consider handler | %s | %s changes the 'needed' flag of the job's incoming dependencies | its direct upstreams are reconsidered"
-                     % (A.sname(s), short(w["fn"])), ok,
-                     detail=why + ": a parked upstream Ephemeral whose requirement summary just changed is never looked at again (stall)", site=A.site(w))
-                continue
-            if ok:
-                okp = False
-                for v in ems:
-                    com = run.common(w, v)
-                    if com is None:
+        for cb in entries:
+            parts = [(None, {})]
+            for uvb in uvs:
+                for v in A.uni.fin[vt]:
+                    parts.append((v, {uvb.name: (lambda vv: (lambda I_, st_, fr_, bi_, t_, a_, sp_: [(adt("std::result::Result", {0: (fin(vt, [vv]),)}), st_)]))(v)}))
+            for (v, ov) in parts:
+                I2, fr2, out2, col2 = forced_analysis(A, cb, ov, cfgd=dict(label="R58", cell_init={"param": fin(A.L.jobstate, [s])}))
+                called_uv = any(k[0] == "call" and x["callee"] in [u.name for u in uvs] for k, x in I2.rec.facts.items())
+                if v is None and not called_uv:
+                    pass            # the verdict plays no role from this state: the unforced run is the only partition
+                elif v is None:
+                    # only the writes made inside the validation function itself are judged in the unforced run
+                    pass
+                elif not called_uv:
+                    continue
+                ws = []
+                for k, w in I2.rec.facts.items():
+                    if k[0] != "write_edge" or w["proj"] != rf:
                         continue
-                    fidc, fnc, bw, bv = com
-                    body = A.facts.body(fnc)
-                    errs = error_exit_blocks(A, body) | residual_blocks(body)
-                    kb = None
-                    for sym, (roles, _c) in run.syms.items():
-                        if isinstance(sym, tuple) and sym[0] == "b" and sym[1] == fidc and "sigtarget" in roles:
-                            kb = sym[2]
-                    r_ = run.taken_reachable(fidc, bw, ({bv} | errs) - {bw})
-                    if bw == bv or not ((kb is not None and kb in r_) or "return" in r_ or (set(returns_of(body)) & r_)):
-                        okp = True
-                if not okp:
-                    ok, why = False, "the handler can end after changing the flags without reconsidering the upstreams"
-            n += 1
-            R.ob(rule, "consider handler | %s | %s changes the 'needed' flag of the job's incoming dependencies | its direct upstreams are reconsidered"
-                 % (A.sname(s), short(w["fn"])), ok,
-                 detail=why + ": a parked upstream Ephemeral whose requirement summary just changed is never looked at again (stall)", site=A.site(w))
+                    roles = I2.sym_info.get(w["b"], (frozenset(), None))[0]
+                    if is_role((w["b"], roles), "param"):
+                        ws.append(w)
+                ems = [x for k, x in I2.rec.facts.items() if k[0] == "push_signal" and x["container"] != "queue" and K["consider"] in x["kinds"]
+                       and any(isinstance(r_, tuple) and r_[0] == "nbr" and r_[2] == "Incoming" for r_ in _flat_roles(x["key"][1]))]
+                em_blocks = set(b2 for b2 in (_lift(I2, fr2, x) for x in ems) if b2 is not None)
+                for w in ws:
+                    in_uv = any(fn_ in [u.name for u in uvs] for (fn_, _bb) in list(w.get("stack") or ()) + [(w["fn"], w["bb"])])
+                    if v is None and called_uv and not in_uv:
+                        continue          # judged in the per-verdict partitions
+                    site = (s, w["fn"], w["bb"])
+                    if in_uv:
+                        if site in seen:
+                            continue
+                        seen.add(site)
+                        ok, why = _write_in_validation(A, w, s, uvs)
+                    else:
+                        wb = _lift(I2, fr2, w)
+                        ok = wb is not None and bool(ems) and _must_follow(A, I2, fr2, cb, wb, em_blocks)
+                        why = ("no consider signal is sent to the upstreams" if not ems else
+                               "the consider logic can end after changing the flags without reconsidering the upstreams")
+                        if (site, v) in seen:
+                            continue
+                        seen.add((site, v))
+                    n += 1
+                    R.ob(rule, "consider logic | %s%s | %s changes the 'needed' flag of the job's incoming dependencies | its direct upstreams are reconsidered"
+                         % (A.sname(s), "" if v is None else " | verdict %s" % A.uni.show(vt, v), short(w["fn"])), ok,
+                         detail=why + ": a parked upstream Ephemeral whose requirement summary just changed is never looked at again (stall)", site=A.site(w))
     R.floor(rule, "sites in the consider logic that change the 'needed' flag of incoming dependencies", n, 3)
 
 
-def _write_in_validation(A, w, s):
-    """If the flag write `w` lies inside a function that returns the validation verdict: (ok, reason) of 'for every verdict the function
-    can still return from the write on, the consider logic (verdict forced) reconsiders the direct upstreams on every path'; else None."""
+def _write_in_validation(A, w, s, uvs):
+    """The flag write `w` lies inside (a callee of) a function that returns the validation verdict: (ok, reason) of 'for every verdict
+    the function can still return from the write on, the consider logic (verdict forced) reconsiders the direct upstreams on every path'."""
     from rules_compare import validation_ty, consider_entry_fns, skip_kind
     from protocol import forced_analysis
     from domain import adt
     vt = validation_ty(A)
-    uvb = A.facts.body(w["fn"])
-    if uvb is None or not uvb.locals[0]["s"].startswith("std::result::Result<%s" % vt):
-        return None
     K = kinds(A)
-    I, fr, out, col = forced_analysis(A, uvb, {}, cfgd=dict(label="R58a"))
-    st = col["ins"].get(w["bb"])
-    if st is None:
-        return (False, "cannot continue the validation function from the write (fail closed)")
-    ex = I.run(fr, st.copy(), start=w["bb"])
-    rv = ex.locals.get((fr.fid, 0)) if ex is not None else None
+    ch = list(w.get("stack") or ()) + [(w["fn"], w["bb"])]
+    uvb, bb_in_uv = None, None
+    for (fn_, bb_) in ch:
+        cand = [u for u in uvs if u.name == fn_]
+        if cand:
+            uvb, bb_in_uv = cand[0], bb_
+            break
+    if uvb is None:
+        return (False, "internal: write not inside the validation function")
+    iu = [i_ for i_, (fn_, _b) in enumerate(ch) if fn_ == uvb.name][0]
+
+    def returns_after(i):
+        """return values of ch[i]'s function when execution continues from the write (through the callees below it)"""
+        fn_, bb_ = ch[i]
+        body = A.facts.body(fn_)
+        ov = {}
+        if i + 1 < len(ch):
+            sub = returns_after(i + 1)
+            if sub is None:
+                return None
+            child = ch[i + 1][0]
+            ov[child] = (lambda rvs: (lambda I_, st_, fr_, bi_, t_, a_, sp_: [(rv_, st_.copy()) for rv_ in rvs]))(sub)
+        I_, fr_, out_, col_ = forced_analysis(A, body, {}, cfgd=dict(label="R58a"))
+        st_ = col_["ins"].get(bb_)
+        if st_ is None:
+            return None
+        I_.models = dict(I_.models)
+        I_.models.update(ov)
+        I_.run(fr_, st_.copy(), start=bb_)
+        rvs = []
+        for ex_ in getattr(I_, "last_exits", []):
+            rv_ = ex_.locals.get((fr_.fid, 0))
+            if rv_ is None:
+                return None
+            rvs.append(rv_)
+        return rvs
+    rvs = returns_after(iu)
     verdicts = None
-    if rv is not None and rv[0] == "adt" and rv[1] == "std::result::Result":
-        vs = adt_variants(rv)
-        verdicts = set(vs[0][0][2]) if (0 in vs and vs[0][0][0] == "fin") else (set() if 0 not in vs else None)
+    if rvs is not None:
+        verdicts = set()
+        for rv in rvs:
+            if rv[0] == "adt" and rv[1] == "std::result::Result":
+                vs = adt_variants(rv)
+                if 0 in vs:
+                    if vs[0][0][0] != "fin":
+                        verdicts = None
+                        break
+                    verdicts |= set(vs[0][0][2])
+            else:
+                verdicts = None
+                break
     if verdicts is None:
         return (False, "the verdicts returned after the write are unknown (fail closed)")
     for b_ in sorted(consider_entry_fns(A, skip_kind(A))):
@@ -1892,36 +1969,17 @@ def _write_in_validation(A, w, s):
         for v in sorted(verdicts):
             ov = {uvb.name: (lambda vv: (lambda I_, st_, fr_, bi_, t_, a_, sp_: [(adt("std::result::Result", {0: (fin(vt, [vv]),)}), st_)]))(v)}
             I2, fr2, out2, col2 = forced_analysis(A, cb, ov, cfgd=dict(label="R58b", cell_init={"param": fin(A.L.jobstate, [s])}))
-            calls = [x for k, x in I2.rec.facts.items() if k[0] == "call" and x["callee"] == uvb.name and x["fid"] == fr2.fid]
+            calls = [x for k, x in I2.rec.facts.items() if k[0] == "call" and x["callee"] == uvb.name]
             ems = [x for k, x in I2.rec.facts.items() if k[0] == "push_signal" and x["container"] != "queue" and K["consider"] in x["kinds"]
                    and any(isinstance(r_, tuple) and r_[0] == "nbr" and r_[2] == "Incoming" for r_ in _flat_roles(x["key"][1]))]
             if not calls:
                 continue
             if not ems:
                 return (False, "with the verdict %s no consider signal is sent to the upstreams" % A.uni.show(vt, v))
-            errs = error_exit_blocks(A, cb) | residual_blocks(cb)
-            es = I2.edges.get(fr2.fid, set())
-            succ = {}
-            for (a_, b2) in es:
-                succ.setdefault(a_, []).append(b2)
-            idx = dict(((nm[0], tuple(nm[1])), f) for f, nm in I2.frame_names.items())
-
-            def lift(x):
-                ch = list(x.get("stack") or ()) + [(x["fn"], x["bb"])]
-                for i_, (fn_, bb_) in enumerate(ch):
-                    if idx.get((fn_, tuple(ch[:i_]))) == fr2.fid:
-                        return bb_
-                return None
-            blocks = set(b2 for b2 in (lift(x) for x in ems) if b2 is not None)
+            em_blocks = set(b2 for b2 in (_lift(I2, fr2, x) for x in ems) if b2 is not None)
             for c in calls:
-                seen_, stk = set(), [c["bb"]]
-                while stk:
-                    x = stk.pop()
-                    if x in seen_ or (x in blocks and x != c["bb"]) or x in errs:
-                        continue
-                    seen_.add(x)
-                    stk.extend(succ.get(x, ()))
-                if "return" in seen_ and c["bb"] not in blocks:
+                cbb = _lift(I2, fr2, c)
+                if cbb is None or not _must_follow(A, I2, fr2, cb, cbb, em_blocks):
                     return (False, "with the verdict %s the consider logic can end without reconsidering the upstreams" % A.uni.show(vt, v))
     return (True, "")
 
